@@ -208,5 +208,13 @@ def after_calls_cases(rng, n, own, minlen=8, maxlen=50):
             for e in extra:
                 if e.strip() != "setphos 0" and rng.random() < 0.7:
                     scene.insert(rng.randint(0, len(scene)), e)
+        if k % 4 == 2:
+            # the scene is played on ANOTHER live object (object 1): object 0 must not notice
+            t = rand_seq(rng, rng.choice(["polyampholyte", "idp", "blocky"]), rng.randint(minlen, maxlen))
+            scene = [l.replace("o 0 ", "o 1 ", 1).replace("setphos 0 ", "setphos 1 ", 1).replace("clearphos 0", "clearphos 1").replace("setpal 0 ", "setpal 1 ", 1)
+                     for l in scene if not l.startswith("setphos")]
+            lines = ["new 0 " + s, "new 1 " + t] + scene + ["o 0 " + q for q in own]
+            yield Case(lines, {"kind": "after-calls-on-another-object", "judge_from": 2 + len(scene)})
+            continue
         lines = ["new 0 " + s] + scene + ["o 0 " + q for q in own]
         yield Case(lines, {"kind": "after-other-calls", "judge_from": 1 + len(scene)})
